@@ -289,6 +289,15 @@ def main(argv):
         return 2
     if changed:
         notes.append("Generated constants changed; every theorem that mentions them is re-checked")
+    # 2b. function inventory of the current tree against the model (information, never a verdict)
+    try:
+        rc_cov, out_cov = run([sys.executable, os.path.join(VERIF, "scripts", "coverage.py")], timeout=120)
+        cov = json.loads(out_cov.strip().splitlines()[-1])
+        notes.append("function inventory of %s/src: %s" % (REPO, ", ".join("%s %d" % kv for kv in sorted(cov["by_status"].items()))))
+        if cov["unclassified"]:
+            notes.append("functions unknown to the model inventory (new code, not covered by any theorem): " + ", ".join(cov["unclassified"][:20]))
+    except Exception as e:
+        notes.append("function inventory not available: %s" % e)
     # 3. build driver + theorems
     rc_drv, out_drv = lake_build(["zkdriver"])
     if rc_drv != 0:
